@@ -670,7 +670,7 @@ def gen_verbatim(rng):
             sites.append({"ds": export_stmt["kw"][0], "de": export_stmt["kw"][1], "reqs": [{"req": "10 %d %d %s" % (export_stmt["kw"][1], len(inl), spans), "dec": "optchanges"}]})
         else:
             for s in tu:      # export specifiers are always named; the inline fix is offered for all of them
-                sites.append({"ds": s["s"], "de": s["e"], "reqs": [req_change("11 1 %d" % s["s"])]})
+                sites.append({"ds": s["s"], "de": s["e"], "reqs": [{"req": "11 1 %d" % s["s"], "dec": "optchange_nofix"}]})
     return {"src": t.src(), "media": media, "rule": "verbatim-module-syntax", "sites": sites}
 
 
@@ -731,16 +731,13 @@ def run_builds(progs):
             rep = r.int(); c = ch(); val = [c] if rep else None
         elif dec == "optchanges":
             v = r.opt(lambda: r.list(ch)); val = "nofix" if v is None else v
-        elif dec == "optopt":
-            v = r.opt(lambda: r.opt(ch)); val = None if v is None else ("nofix" if v[0] is None else [v[0]]) if False else None
-            # outer None: no diagnostic; inner None: diagnostic without fix
-            r2 = pipe.Reader(o)
-            if r2.int() == 0:
+        elif dec == "optopt":      # outer None: no diagnostic; inner None: diagnostic without fix
+            if r.int() == 0:
                 val = None
-            elif r2.int() == 0:
+            elif r.int() == 0:
                 val = "nofix"
             else:
-                val = [(r2.int(), r2.int(), r2.str())]
+                val = [ch()]
         acc[(pi, si)] = val
     for (pi, si), val in acc.items():
         st = progs[pi]["sites"][si]
@@ -980,47 +977,33 @@ TEXT_REGRESSION = ["const π = Math.PI;", "π", "// π", "var any \u000b = 'thin
                    "' \xa0'; `　${ a }\xa0`; /\xa0/u;", "#!/x \xa0\n\xa0a;", "a;\r\n　\r\nb;", ""]
 
 
-def text_rules_check(ctx, n=None, proof=True):
-    """prefer-ascii / no-irregular-whitespace: extracted models vs the rules on generated texts; every implementation range
-    is also checked against the C03 clause (inside the text, char boundaries, start <= end)."""
-    if proof:
-        for f in ("C03_text", "C09_text"):
-            ok, thms, out = lib.props_assumptions(f)
-            ctx.checker_cmds.append("cd /verif/coq && make Props/%s.vo" % f)
-            if not ok:
-                ctx.obligation("theorems of Props/%s.v" % f, False, out[-1500:])
-            for name, axioms in thms:
-                ctx.obligation("theorem %s (Print Assumptions: %s)" % (name, "closed" if not axioms else ",".join(axioms)), not axioms, ",".join(axioms))
-    exe, out = lib.build_model("text")
-    if exe is None:
-        ctx.obligation("extraction + build of the text model driver", False, out[-2000:])
-        return
-    rng = random.Random(ctx.seed + 1303)
-    n = n or (3000 if ctx.tier == "quick" else 60000)
-    progs = [{"src": s, "media": "ts"} for s in TEXT_REGRESSION] + [gen_text_program(rng) for _ in range(n)]
+def _text_proof(ctx, prop_file):
+    ok, thms, out = lib.props_assumptions(prop_file)
+    ctx.checker_cmds.append("cd /verif/coq && coq_makefile -f _CoqProject -o Makefile && make Props/%s.vo  (coqc 8.16.1, full .vo build)" % prop_file)
+    if not ok:
+        for nm in lib.theorem_statements(prop_file) or ["Props/%s.v" % prop_file]:
+            ctx.obligation("theorem " + nm, False, out[-1500:])
+        return False
+    for name, axioms in thms:
+        extra = [a for a in axioms if a not in lib.ALLOWED_AXIOMS]
+        ctx.obligation("theorem %s (Print Assumptions: %s)" % (name, "closed" if not axioms else ",".join(axioms)), not extra, ",".join(extra))
+    if ctx.tier == "thorough":
+        ctx.coqchk(prop_file)
+    return True
+
+
+def _text_run(progs):
+    """implementation (both rules) + swc tokens + the two extracted models on every program that parses;
+    returns list of dicts {prog, text, impl_pa, impl_ir, model_pa, model_ir (None = slice panic), diags}"""
     lint = lib.run_vh("lint", [dict(p, rules=["prefer-ascii", "no-irregular-whitespace"]) for p in progs], per_case_timeout=5)
     toks = lib.run_vh("tokens", progs, per_case_timeout=5)
     idx = [i for i, (l, t) in enumerate(zip(lint, toks)) if status(l) == "ok" and "tokens" in (t or {})]
-    texts = [progs[i]["src"].lstrip("﻿") for i in idx]
+    texts = [progs[i]["src"].lstrip("﻿") for i in idx]       # lint_file strips the byte order mark(s)
     pa = lib.run_model("text", "prefer_ascii", [pipe.enc_str(s) for s in texts])
     ir = lib.run_model("text", "irregular", ["%s %s" % (pipe.enc_str(s), pipe.enc_list(toks[i]["tokens"], lambda t: "%d %d" % (t[0], t[1]))) for i, s in zip(idx, texts)])
-    mism, nontriv = [], 0
-    dist = collections.Counter()
-    nbad = collections.Counter()
+    out = {}
     for i, s, mpa, mir in zip(idx, texts, pa, ir):
         res = lint[i]["ok"]
-        bounds = char_bounds(s)
-        nb = len(s.encode("utf8"))
-        for d in res:
-            if not (0 <= d["start"] <= d["end"] <= nb):
-                cls = "C03.range-out-of-text:" + d["code"]
-            elif d["start"] not in bounds or d["end"] not in bounds:
-                cls = "C03.range-off-char-boundary:" + d["code"]
-            else:
-                continue
-            nbad[cls] += 1
-            if nbad[cls] <= 2:
-                ctx.violation(cls, "%s [%d,%d) in a text of %d bytes" % (d["code"], d["start"], d["end"], nb), {"case": dict(progs[i], rules=[d["code"]]), "diagnostic": d})
         r = pipe.Reader(mpa)
         m1 = sorted(r.list(lambda: (r.int(), r.int(), r.int())), key=lambda x: (x[1], x[2]))
         i1 = []
@@ -1029,25 +1012,131 @@ def text_rules_check(ctx, n=None, proof=True):
                 h = d.get("hint") or ""
                 cp = int(h.split("\\u{")[1].split("}")[0], 16) if "\\u{" in h else -1
                 i1.append((cp, d["start"], d["end"]))
+        i1.sort(key=lambda x: (x[1], x[2]))
         r = pipe.Reader(mir)
         m2 = None if r.int() == 0 else sorted(r.list(lambda: (r.int(), r.int())))
         i2 = sorted((d["start"], d["end"]) for d in res if d["code"] == "no-irregular-whitespace")
-        if m1 != sorted(i1, key=lambda x: (x[1], x[2])):
-            mism.append({"rule": "prefer-ascii", "case": progs[i], "impl": i1[:8], "model": m1[:8]})
-        if m2 != i2:
-            mism.append({"rule": "no-irregular-whitespace", "case": progs[i], "tokens": toks[i]["tokens"][:20], "impl": i2[:8], "model": m2 if m2 is None else m2[:8]})
-        if i1 or i2:
+        out[i] = {"prog": progs[i], "text": s, "impl_pa": i1, "impl_ir": i2, "model_pa": m1, "model_ir": m2, "diags": res, "tokens": toks[i]["tokens"]}
+    return out
+
+
+TEXT_RULE_DESC = ("generated programs: ASCII + 2/3/4-byte characters and all irregular white space characters (U+000B U+000C U+0085 U+FEFF U+00A0 U+1680 U+180E U+2000..U+200B "
+                  "U+2028 U+2029 U+202F U+205F U+3000) in token gaps, line/block comments, strings, templates, regex literals, JSX text and attribute strings, after a shebang or BOM, "
+                  "at the very end of the file; model input = text + swc's token ranges (harness `tokens`); compared: every (start,end) and the reported character")
+
+
+def text_rules_c03(ctx, n=None):
+    """C03, text-scanning rules: proof stage of Props/C03_text.v + prefer-ascii / no-irregular-whitespace vs the extracted scanning
+    models; every implementation range is checked against the C03 clause (inside the text, char boundaries, start <= end)."""
+    _text_proof(ctx, "C03_text")
+    exe, out = lib.build_model("text")
+    if exe is None:
+        ctx.obligation("extraction + build of the text model driver", False, out[-2000:])
+        return
+    rng = random.Random(ctx.seed + 1303)
+    n = n or (3000 if ctx.tier == "quick" else 120000)
+    progs = [{"src": s, "media": "ts"} for s in TEXT_REGRESSION] + [gen_text_program(rng) for _ in range(n)]
+    runs = _text_run(progs)
+    mism, nontriv = [], 0
+    dist, nbad = collections.Counter(), collections.Counter()
+    for i, x in runs.items():
+        bounds = char_bounds(x["text"])
+        nb = len(x["text"].encode("utf8"))
+        for d in x["diags"]:
+            if not (0 <= d["start"] <= d["end"] <= nb):
+                cls = "C03.range-out-of-text:" + d["code"]
+            elif d["start"] not in bounds or d["end"] not in bounds:
+                cls = "C03.range-off-char-boundary:" + d["code"]
+            else:
+                continue
+            nbad[cls] += 1
+            if nbad[cls] <= 2:
+                ctx.violation(cls, "%s [%d,%d) in a text of %d bytes" % (d["code"], d["start"], d["end"], nb), {"case": dict(x["prog"], rules=[d["code"]]), "diagnostic": d})
+        if x["model_pa"] != x["impl_pa"]:
+            mism.append({"rule": "prefer-ascii", "case": x["prog"], "impl": x["impl_pa"][:8], "model": x["model_pa"][:8]})
+        if x["model_ir"] != x["impl_ir"]:
+            mism.append({"rule": "no-irregular-whitespace", "case": x["prog"], "tokens": x["tokens"][:20], "impl": x["impl_ir"][:8], "model": x["model_ir"] if x["model_ir"] is None else x["model_ir"][:8]})
+        if x["impl_pa"] or x["impl_ir"]:
             nontriv += 1
-        dist["prefer-ascii diagnostics"] += len(i1); dist["no-irregular-whitespace diagnostics"] += len(i2)
-    dist["programs that parse"] = len(idx); dist["programs rejected by the parser (skipped)"] = len(progs) - len(idx)
+        dist["prefer-ascii diagnostics"] += len(x["impl_pa"]); dist["no-irregular-whitespace diagnostics"] += len(x["impl_ir"])
+    dist["programs that parse"] = len(runs); dist["programs rejected by the parser (skipped)"] = len(progs) - len(runs)
+    keys = sorted(runs)
     ctx.correspondence("prefer-ascii / no-irregular-whitespace: rules vs extracted scanning models (Text/PreferAscii.v, Text/Irregular.v)",
-                       len(idx) * 2, nontriv, mism[:10],
-                       "generated programs: ASCII + 2/3/4-byte characters and all irregular white space characters (U+000B U+000C U+0085 U+FEFF U+00A0 U+1680 U+180E U+2000.. U+200B "
-                       "U+2028 U+2029 U+202F U+205F U+3000) in token gaps, line/block comments, strings, templates, regex literals, JSX text and attribute strings, after a shebang or BOM, "
-                       "at the very end of the file; model input = text + swc's token ranges (harness `tokens`); compared: every (start,end) and the reported character; "
-                       "non-trivial := program with at least one diagnostic of either rule",
-                       samples=[{"case": progs[idx[k]], "impl": lint[idx[k]]["ok"][:3]} for k in range(min(2, len(idx)))], distribution=dict(dist))
+                       len(runs) * 2, nontriv, mism[:10], TEXT_RULE_DESC + "; non-trivial := program with at least one diagnostic of either rule",
+                       samples=[{"case": runs[k]["prog"], "impl": runs[k]["diags"][:3]} for k in keys[:2]], distribution=dict(dist))
     return mism
+
+
+# token-free prefixes whose last character is not an irregular white space character (the side condition of
+# C09_irregular_ws_prefix: no run spans the border)
+TEXT_PREFIXES = ["\n", "\n\n\n", "   ", "\t", "\r\n", "// ascii comment\n", "// é漢😀 π comment\n", "/* block */ ", "/* é\n 　 */\n", "//\xa0\u3000 irregular\n",
+                 "/* \u2028 \u0085 ᠎ */", "\xa0\n", "\x0b \x0c ", "　　 ", "/*😀*/"]
+
+
+def text_rules_c09(ctx, n=None):
+    """C09, text-scanning rules: proof stage of Props/C09_text.v + prefix differential: for P and prefix+P the two rules AND the
+    two models are run; property oracle on the implementation: the diagnostics located behind the prefix are exactly the
+    diagnostics of P translated by the byte length of the prefix."""
+    _text_proof(ctx, "C09_text")
+    exe, out = lib.build_model("text")
+    if exe is None:
+        ctx.obligation("extraction + build of the text model driver", False, out[-2000:])
+        return
+    rng = random.Random(ctx.seed + 1309)
+    n = n or (1500 if ctx.tier == "quick" else 60000)
+    base = [{"src": s, "media": "ts"} for s in TEXT_REGRESSION if s and not s.startswith("#!") and not s.startswith("﻿")]
+    while len(base) < n:
+        p = gen_text_program(rng)
+        if p["src"] and not p["src"].startswith("#!") and not p["src"].startswith("﻿"):
+            base.append(p)
+    progs, pairs = [], []
+    for p in base:
+        k = len(progs)
+        progs.append(p)
+        for pre in rng.sample(TEXT_PREFIXES, 2 if ctx.tier == "quick" else 4):
+            pairs.append((k, len(progs), pre))
+            progs.append(dict(p, src=pre + p["src"]))
+    runs = _text_run(progs)
+    mism, nontriv, nbad = [], 0, collections.Counter()
+    for x in runs.values():
+        if x["model_pa"] != x["impl_pa"]:
+            mism.append({"rule": "prefer-ascii", "case": x["prog"], "impl": x["impl_pa"][:8], "model": x["model_pa"][:8]})
+        if x["model_ir"] != x["impl_ir"]:
+            mism.append({"rule": "no-irregular-whitespace", "case": x["prog"], "impl": x["impl_ir"][:8], "model": x["model_ir"] if x["model_ir"] is None else x["model_ir"][:8]})
+    for (k, j, pre) in pairs:
+        if k not in runs:
+            continue
+        if j not in runs:
+            cls = "C09.text-prefix-changes-parse"
+            nbad[cls] += 1
+            if nbad[cls] <= 2:
+                ctx.violation(cls, "the program parses, prefix+program does not", {"base": progs[k], "variant": progs[j], "prefix": pre})
+            continue
+        a, b = runs[k], runs[j]
+        sh = len(pre.encode("utf8"))
+        if a["impl_pa"] or a["impl_ir"]:
+            nontriv += 1
+        for rule, key, tr in (("prefer-ascii", "impl_pa", lambda d: (d[0], d[1] + sh, d[2] + sh)), ("no-irregular-whitespace", "impl_ir", lambda d: (d[0] + sh, d[1] + sh))):
+            exp = [tr(d) for d in a[key]]
+            got = [d for d in b[key] if (d[1] if rule == "prefer-ascii" else d[0]) >= sh]      # diagnostics inside the prefix are excluded
+            inside = [d for d in b[key] if (d[1] if rule == "prefer-ascii" else d[0]) < sh]
+            if exp != got or any((d[2] if rule == "prefer-ascii" else d[1]) > sh for d in inside):
+                cls = "C09.text-prefix-not-equivariant:" + rule
+                nbad[cls] += 1
+                if nbad[cls] <= 2:
+                    ctx.violation(cls, "%s: prefix %r: expected %s got %s" % (rule, pre, exp[:5], got[:5]),
+                                  {"base": dict(progs[k], rules=[rule]), "variant": dict(progs[j], rules=[rule]), "prefix": pre, "expected_behind_prefix": exp[:20], "got_behind_prefix": got[:20]})
+    ctx.correspondence("prefer-ascii / no-irregular-whitespace under token-free prefixes: rules vs extracted models, and P vs prefix+P on the implementation",
+                       len(runs) * 2, nontriv, mism[:10],
+                       TEXT_RULE_DESC + "; prefixes %s (white space, ASCII and non-ASCII comments, irregular white space inside and as the prefix, never as its last character next to "
+                       "an irregular first gap: the side condition of C09_irregular_ws_prefix); oracle: diagnostics behind the prefix = diagnostics of P + byte length of the prefix, "
+                       "diagnostics of the prefix end inside it; non-trivial := base program with at least one diagnostic" % [p for p in TEXT_PREFIXES])
+    return mism
+
+
+def text_rules_check(ctx, n=None):
+    """both text-rule checks (kept for callers that want everything at once)"""
+    return (text_rules_c03(ctx, n) or []) + (text_rules_c09(ctx, n) or [])
 
 
 # ---------------------------------------------------------------------------------------------- C13
@@ -1141,4 +1230,6 @@ def c13(ctx):
         pm = [{"case": p["src"], "fix": d["fixes"][0]["changes"], "jsx_attr_string": o.strip(), "parser": status(x)} for (p, d), o, x in zip(attr, preds, pr)
               if o.strip() == "1" and status(x) != "ok"]
         ctx.correspondence("jsx_attr_string (lexical predicate) vs the parser on every attribute fix of jsx-curly-braces", len(attr),
-                           sum(1 for o in preds if o.strip() == "0"), pm[:10], "predicate true -> the fixed text parses (a text that is not ONE attribute string may still parse by accident, as something else); non-trivial := predicate false")
+                           sum(1 for p, d in attr if d["fixes"][0]["changes"][0]["t"][:1] == "'"), pm[:10],
+                           "predicate true -> the fixed text parses (a text that is not ONE attribute string may still parse by accident, as something else); "
+                           "non-trivial := the fix had to use single quotes (the value contains a double quote)")
